@@ -243,7 +243,12 @@ func (s *Session) authorizationHandler(cmd string, args []string) {
 
 	case "USER":
 		if len(args) > 0 {
-			s.user = args[0]
+			user, err := s.mailboxName(args[0])
+			if err != nil {
+				s.send("-ERR Invalid mailbox name")
+				return
+			}
+			s.user = user
 			s.send(fmt.Sprintf("+OK Hello %v, welcome to Inbucket", s.user))
 		} else {
 			s.send("-ERR Missing username argument")
@@ -262,7 +267,12 @@ func (s *Session) authorizationHandler(cmd string, args []string) {
 			s.send("-ERR APOP requires two arguments")
 			return
 		}
-		s.user = args[0]
+		user, err := s.mailboxName(args[0])
+		if err != nil {
+			s.send("-ERR Invalid mailbox name")
+			return
+		}
+		s.user = user
 		s.loadMailbox()
 		s.send(fmt.Sprintf("+OK Found %v messages for %v", s.msgCount, s.user))
 		s.enterState(TRANSACTION)
@@ -558,6 +568,15 @@ func (s *Session) sendMessageTop(msg storage.Message, lineCount int) {
 		return
 	}
 	s.send(".")
+}
+
+// mailboxName returns the canonical mailbox name for a login name, when the server knows the
+// naming policy.
+func (s *Session) mailboxName(login string) (string, error) {
+	if s.addrPolicy == nil {
+		return login, nil
+	}
+	return s.addrPolicy.ExtractMailbox(login)
 }
 
 // Load the users mailbox
